@@ -11,7 +11,7 @@ install_log(CD)
 
 INFO = {
     "bounds": {
-        "quick": "fixed directory skeleton (IDF root, components/c1, projects p1, p1/main, p1/nested, p2, an orphan directory, an --includes directory) with symbolic file-system facts: per project directory {no CMakeLists, CMakeLists without project(), CMakeLists with project()}, per directory a rename file renaming {nothing, O1, O2}; five defaults files (each assigning O1, one also O2) checked in two seeded orders / subsets per job; project facts and the two global rename facts are fixed per job (sampled), the five project-local rename facts are symbolic",
+        "quick": "fixed directory skeleton (IDF root, components/c1, projects p1, p1/main, p1/nested, p1/nested/main, p2, an orphan directory, an --includes directory) with symbolic file-system facts: per project directory {no CMakeLists, CMakeLists without project(), CMakeLists with project()}, per directory a rename file renaming {nothing, O1, O2}; five defaults files (each assigning O1, one also O2) checked outer-first, innermost-first and in seeded orders / subsets; project facts and the two global rename facts are fixed per job (sampled), the five project-local rename facts are symbolic",
         "thorough": "all 27 project-fact combinations, more orders",
     },
     "outside": ["directory trees outside the skeleton", "CMake syntax beyond the two CMakeLists texts", "the --exclude-submodules option"],
@@ -25,14 +25,15 @@ DIRS = {
     "p1": IDF + "/examples/p1",
     "p1m": IDF + "/examples/p1/main",
     "pn": IDF + "/examples/p1/nested",
+    "pnm": IDF + "/examples/p1/nested/main",
     "p2": IDF + "/examples/p2",
     "orph": IDF + "/orphan",
     "inc": "/m/inc",
 }
 PROJ_DIRS = ["p1", "pn", "p2"]
-REN_DIRS = ["c1", "p1", "p1m", "pn", "p2", "orph", "inc"]
-CHECKED = ["p1", "p1m", "pn", "p2", "orph"]  # directories holding an sdkconfig.defaults
-ORDERS = list(itertools.permutations(range(5), 3)) + [(0, 1, 2, 3, 4), (4, 3, 2, 1, 0), (2, 0, 4, 1, 3)]
+REN_DIRS = ["c1", "p1", "p1m", "pn", "pnm", "p2", "orph", "inc"]
+CHECKED = ["p1", "p1m", "pn", "pnm", "p2", "orph"]  # directories holding an sdkconfig.defaults
+ORDERS = list(itertools.permutations(range(6), 3)) + [(0, 1, 2, 3, 4, 5), (5, 4, 3, 2, 1, 0), (2, 0, 4, 1, 3, 5), (0, 3, 2), (3, 0), (0, 3)]
 
 
 def _pick(seq, i):
@@ -64,7 +65,7 @@ def _spec(proj, ren, name):
     """flagged? -- from the facts alone, no memo"""
 
     def nearest(dname):
-        chain = {"p1": ["p1"], "p1m": ["p1"], "pn": ["pn", "p1"], "p2": ["p2"], "orph": [], "c1": [], "inc": []}[dname]
+        chain = {"p1": ["p1"], "p1m": ["p1"], "pn": ["pn", "p1"], "pnm": ["pn", "p1"], "p2": ["p2"], "orph": [], "c1": [], "inc": []}[dname]
         for c in chain:
             if proj.get(c) == 2:
                 return c
@@ -97,11 +98,11 @@ def _run(fs, order):
     return out
 
 
-def scope(ctx, rp1, rp1m, rpn, rp2, rorph):
+def scope(ctx, rp1, rp1m, rpn, rpnm, rp2, rorph):
     proj = dict(ctx["proj"])
     ren = {"c1": ctx["rc1"], "inc": ctx["rinc"]}
     # decode the selectors into concrete facts (one fork per fact)
-    for k, v in (("p1", rp1), ("p1m", rp1m), ("pn", rpn), ("p2", rp2), ("orph", rorph)):
+    for k, v in (("p1", rp1), ("p1m", rp1m), ("pn", rpn), ("pnm", rpnm), ("p2", rp2), ("orph", rorph)):
         ren[k] = _pick((0, 1, 2), v)
     results = [_run(_mkfs(proj, ren), o) for o in ctx["orders"]]
     for name in CHECKED:
@@ -121,17 +122,19 @@ def jobs(tier, seed, excluded=()):
         rest = [c for c in combos if c not in must]
         rng.shuffle(rest)
         combos = must + rest[:6]
-        norders, tmo = 2, 200
+        norders, tmo = 2, 240
     else:
         norders, tmo = 3, 900
     out = []
     for (a, b, c) in combos:
-        orders = [list(o) for o in rng.sample(ORDERS, norders)]
+        # all files outer-project-first, all files innermost-first, plus seeded subsets / orders
+        orders = [[0, 1, 2, 3, 4, 5], [5, 4, 3, 2, 1, 0]] + [list(o) for o in rng.sample(ORDERS, max(0, norders - 2))]
         proj = {"p1": a, "pn": b, "p2": c}
         rc1, rinc = rng.choice((0, 0, 1, 2)), rng.choice((0, 0, 1))
-        names = ("rp1", "rp1m", "rpn", "rp2", "rorph")
-        pre = " and ".join("0 <= %s <= 2" % p for p in names)
+        names = ("rp1", "rp1m", "rpn", "rpnm", "rp2", "rorph")
         params = [(p, "int") for p in names]
-        smp = [[rng.randint(0, 2) for _ in names] for _ in range(3)]
-        out.append(Job("C19", "C19-proj%d%d%d-g%d%d" % (a, b, c, rc1, rinc), "vk.props.c19", "scope", {"proj": proj, "orders": orders, "rc1": rc1, "rinc": rinc}, params, pre, timeout=tmo, samples=smp, tree="skeleton p1=%d nested=%d p2=%d components-rename=%d includes-rename=%d" % (a, b, c, rc1, rinc)))
+        for split in (0, 1, 2):
+            pre = " and ".join("0 <= %s <= 2" % p for p in names) + " and rpn == %d" % split + (" and rorph <= 1 and rp1m <= 1 and rp2 <= 1" if tier == "quick" else "")
+            smp = [[rng.randint(0, 2), rng.randint(0, 1), split, rng.randint(0, 2), rng.randint(0, 1), rng.randint(0, 1)] for _ in range(3)]
+            out.append(Job("C19", "C19-proj%d%d%d-g%d%d-n%d" % (a, b, c, rc1, rinc, split), "vk.props.c19", "scope", {"proj": proj, "orders": orders, "rc1": rc1, "rinc": rinc}, params, pre, timeout=tmo, samples=smp, tree="skeleton p1=%d nested=%d p2=%d components-rename=%d includes-rename=%d nested-rename=%d" % (a, b, c, rc1, rinc, split)))
     return out
